@@ -1533,7 +1533,33 @@ func ruleBuildDescendsOneLevel(r *Run) {
 				continue
 			}
 			arg := call.Call.Args[0]
-			// the entry call from Build/helpers with the caller's own parameter is not a descent
+			// a helper that builds the operand it is handed: the operand is what its callers pass
+			if q, isParam := spillParam(unspill(arg)).(*ssa.Parameter); isParam && q.Parent() != bf {
+				idx := -1
+				for i, prm := range q.Parent().Params {
+					if prm == q {
+						idx = i
+					}
+				}
+				for _, g2 := range grp {
+					for _, c2 := range callsIn(g2) {
+						if staticCallee(c2) != q.Parent() || idx < 0 || idx >= len(c2.Common().Args) {
+							continue
+						}
+						n++
+						av := unspill(c2.Common().Args[idx])
+						if mi, ok := av.(*ssa.MakeInterface); ok {
+							av = unspill(mi.X)
+						}
+						if _, _, ok := loadOfField(av); !ok {
+							good = false
+							o.Fail(r.pos(c2.Pos()), "%s is handed %s to build: not an operand field of the node being built", shortFuncName(q.Parent()), describe(av, 0))
+						}
+					}
+				}
+				continue
+			}
+			// the entry call from Build with the caller's own parameter is not a descent
 			if _, isParam := originValueIn(unspill(arg), grp).(*ssa.Parameter); isParam {
 				continue
 			}
